@@ -103,6 +103,14 @@ def run(tier, seed):
     if _lv.violation:
         viol = viol + [{"what": "model: the write-behind worker does not drain what was accepted (and the device is not out of space) (%s)" % _lv.violation, "replay": v.save_replay("c19", "mc_live.out", _lv.out[-6000:]), "key": "mc live"}]
     cov["liveness_states"] = _lv.distinct
+    # story: a retirement has to wait (a slow reader holds its pin on the deleted key's generation) while small writes
+    # go to keys of ALL shards: 2.5 s later every one of them is on the device (the key universe of the history is the
+    # probe keys only, hence ResultsMatch alone: the pinned key's own pending delete is not acknowledged)
+    import seqengine as _sqp
+    _pv, _pn, _pst = _sqp.run_stories(PROP, fxv, rd, "pinstory", 1 if tier == "quick" else 4,
+                                      "accepted writes not on the device 2.5 s later while another key's retirement was waiting for a reader",
+                                      inv=("ResultsMatch",))
+    viol = viol + _pv
     return {"level": "model_checking", "coverage": cov, "violations": viol,
             "assumptions": ["wall-clock bound of 3 s against a documented 100 ms interval (30x margin)",
                             "shard/worker count controlled through sched_setaffinity"]}
